@@ -179,12 +179,12 @@ Proof.
   destruct (js_bits st <=? 8); (apply good_alloc; [lia|rewrite maxAlloc_val; lia|lia|exact I]).
 Qed.
 
-Lemma frame_S_nonneg : forall m fuel bs, bytes bs -> 0 <= frame_S m fuel bs.
+Lemma frame_S_nonneg : forall fuel bs, bytes bs -> 0 <= frame_S fuel bs.
 Proof.
-  intros m fuel. induction fuel as [|k IH]; intros bs Hb; cbn [frame_S]; [lia|].
+  induction fuel as [|k IH]; intros bs Hb; cbn [frame_S]; [lia|].
   destruct (read_marker bs) as [[mk r]| | |] eqn:EM; try lia.
   destruct (read_marker_ok _ _ _ EM) as [_ Hbb]. destruct (Hbb Hb) as [Hr _].
-  destruct (mk =? m).
+  destruct (is_sof mk).
   { apply sof_S_nonneg. unfold seg_data. destruct r as [|a [|b r']]; try constructor.
     inversion Hr as [|? ? ? Hr']; subst. inversion Hr'; subst. apply bytes_firstn; auto. }
   destruct ((mk =? 218) || (mk =? 217)); [lia|].
@@ -195,7 +195,7 @@ Qed.
 
 (* ---------- the marker loop ---------- *)
 Lemma jlsl_loop_good : forall fuel st bs Sx, bytes bs -> Inv st -> (length bs < fuel)%nat -> 0 <= Sx ->
-  (frameless st = true -> frame_S 247 fuel bs <= Sx) -> (frameless st = false -> frameS st <= Sx) ->
+  (frameless st = true -> frame_S fuel bs <= Sx) -> (frameless st = false -> frameS st <= Sx) ->
   aloopP Sx 8 bs (jlsl_loop fuel st bs).
 Proof.
   induction fuel as [|k IH]; intros st bs Sx Hb HI Hf HS H1 H2; [lia|].
@@ -207,7 +207,8 @@ Proof.
   assert (Hzl : zlen r <= zlen bs) by (unfold zlen; lia).
   pose proof (zlen_nonneg bs) as Hz0.
   destruct (m =? 247) eqn:E247.
-  { eapply aloopP_bind; [apply jlsl_sof55_good; exact Hr|nia|].
+  { assert (Hs : is_sof m = true) by (apply Z.eqb_eq in E247; subst m; reflexivity). rewrite Hs in H1.
+    eapply aloopP_bind; [apply jlsl_sof55_good; exact Hr|nia|].
     intros [st' rest] ((P1 & P2 & P3 & P4) & F0 & F1 & F2). cbn [fst snd] in *.
     eapply aloopP_mono with (S' := Sx) (bs' := rest); [lia|lia|unfold zlen; lia|].
     apply IH; auto; [lia| |].
@@ -231,6 +232,7 @@ Proof.
     eapply aloopP_bind; [exact G| |intros _ _; apply aloopP_ret].
     unfold frameS in HfS. rewrite A2, A3, A4. assert (zlen rest <= zlen bs) by (unfold zlen; lia). lia. }
   destruct (m =? 217) eqn:E217; [apply aloopP_err|].
+  revert H1. destruct (is_sof m) eqn:ESOF; intros H1; [apply aloopP_err|].
   cbn [orb] in H1.
   destruct (has_length m) eqn:EL.
   { eapply aloopP_bind; [eapply good_weaken; [apply good_read_segment'; exact Hr|apply Z.le_refl|intros a Ha; exact Ha]|nia|].
@@ -241,13 +243,13 @@ Proof.
   apply IH; auto. lia.
 Qed.
 
-Lemma jlsl_decode_aloopP : forall bs, bytes bs -> aloopP (frame_declared 247 bs) 8 bs (jlsl_decode (fuel_of bs) bs).
+Lemma jlsl_decode_aloopP : forall bs, bytes bs -> aloopP (frame_declared bs) 8 bs (jlsl_decode (fuel_of bs) bs).
 Proof.
   intros bs Hb. unfold jlsl_decode, frame_declared.
   destruct (read_marker bs) as [[m r]| | |] eqn:EM; try apply aloopP_err.
   destruct (read_marker_ok _ _ _ EM) as [Hl Hbb]. destruct (Hbb Hb) as [Hr Hm].
   destruct (m =? 216); [|apply aloopP_err].
-  eapply aloopP_mono with (S' := frame_S 247 (fuel_of bs) r) (bs' := r); [lia|lia|unfold zlen; lia|].
+  eapply aloopP_mono with (S' := frame_S (fuel_of bs) r) (bs' := r); [lia|lia|unfold zlen; lia|].
   apply jlsl_loop_good; auto.
   - apply Inv0.
   - unfold fuel_of; lia.
@@ -265,7 +267,7 @@ Proof. intros bs Hb. apply (jlsl_decode_aloopP bs Hb). Qed.
 (* every allocation request is bounded by the size the (unique) SOF55 of the stream declares
    (F44: a second SOF55 is rejected; historical witness: SOF55 1x1 followed by SOF55 65535x65535) *)
 Theorem jlsl_decode_alloc : forall bs, bytes bs ->
-  Forall (fun a => a <= 8 * frame_declared 247 bs + 2 * zlen bs + 65536) (snd (jlsl_decode (fuel_of bs) bs)).
+  Forall (fun a => a <= 8 * frame_declared bs + 2 * zlen bs + 65536) (snd (jlsl_decode (fuel_of bs) bs)).
 Proof. intros bs Hb. apply (jlsl_decode_aloopP bs Hb). Qed.
 
 (* ================= near-lossless decoder ================= *)
@@ -344,7 +346,7 @@ Proof.
 Qed.
 
 Lemma jlsn_loop_good : forall fuel st bs Sx, bytes bs -> Inv st -> (length bs < fuel)%nat -> 0 <= Sx ->
-  (frameless st = true -> frame_S 247 fuel bs <= Sx) -> (frameless st = false -> frameS st <= Sx) ->
+  (frameless st = true -> frame_S fuel bs <= Sx) -> (frameless st = false -> frameS st <= Sx) ->
   aloopP Sx 8 bs (jlsn_loop fuel st bs).
 Proof.
   induction fuel as [|k IH]; intros st bs Sx Hb HI Hf HS H1 H2; [lia|].
@@ -356,7 +358,8 @@ Proof.
   assert (Hzl : zlen r <= zlen bs) by (unfold zlen; lia).
   pose proof (zlen_nonneg bs) as Hz0.
   destruct (m =? 247) eqn:E247.
-  { eapply aloopP_bind; [apply jlsn_sof55_good; exact Hr|nia|].
+  { assert (Hs : is_sof m = true) by (apply Z.eqb_eq in E247; subst m; reflexivity). rewrite Hs in H1.
+    eapply aloopP_bind; [apply jlsn_sof55_good; exact Hr|nia|].
     intros [st' rest] ((P1 & P2 & P3 & P4) & F0 & F1 & F2). cbn [fst snd] in *.
     eapply aloopP_mono with (S' := Sx) (bs' := rest); [lia|lia|unfold zlen; lia|].
     apply IH; auto; [lia| |].
@@ -379,6 +382,7 @@ Proof.
     eapply aloopP_bind; [exact G| |intros _ _; apply aloopP_ret].
     unfold frameS in HfS. rewrite A2, A3, A4. assert (zlen rest <= zlen bs) by (unfold zlen; lia). lia. }
   destruct (m =? 217) eqn:E217; [apply aloopP_err|].
+  revert H1. destruct (is_sof m) eqn:ESOF; intros H1; [apply aloopP_err|].
   cbn [orb] in H1.
   destruct (has_length m) eqn:EL.
   { eapply aloopP_bind; [eapply good_weaken; [apply good_read_segment'; exact Hr|apply Z.le_refl|intros a Ha; exact Ha]|nia|].
@@ -389,13 +393,13 @@ Proof.
   apply IH; auto. lia.
 Qed.
 
-Lemma jlsn_decode_aloopP : forall bs, bytes bs -> aloopP (frame_declared 247 bs) 8 bs (jlsn_decode (fuel_of bs) bs).
+Lemma jlsn_decode_aloopP : forall bs, bytes bs -> aloopP (frame_declared bs) 8 bs (jlsn_decode (fuel_of bs) bs).
 Proof.
   intros bs Hb. unfold jlsn_decode, frame_declared.
   destruct (read_marker bs) as [[m r]| | |] eqn:EM; try apply aloopP_err.
   destruct (read_marker_ok _ _ _ EM) as [Hl Hbb]. destruct (Hbb Hb) as [Hr Hm].
   destruct (m =? 216); [|apply aloopP_err].
-  eapply aloopP_mono with (S' := frame_S 247 (fuel_of bs) r) (bs' := r); [lia|lia|unfold zlen; lia|].
+  eapply aloopP_mono with (S' := frame_S (fuel_of bs) r) (bs' := r); [lia|lia|unfold zlen; lia|].
   apply jlsn_loop_good; auto.
   - apply Inv0.
   - unfold fuel_of; lia.
@@ -409,5 +413,5 @@ Proof. intros bs Hb. apply (jlsn_decode_aloopP bs Hb). Qed.
 Theorem jlsn_decode_fuel : forall bs, bytes bs -> fst (jlsn_decode (fuel_of bs) bs) <> OutOfFuel.
 Proof. intros bs Hb. apply (jlsn_decode_aloopP bs Hb). Qed.
 Theorem jlsn_decode_alloc : forall bs, bytes bs ->
-  Forall (fun a => a <= 8 * frame_declared 247 bs + 2 * zlen bs + 65536) (snd (jlsn_decode (fuel_of bs) bs)).
+  Forall (fun a => a <= 8 * frame_declared bs + 2 * zlen bs + 65536) (snd (jlsn_decode (fuel_of bs) bs)).
 Proof. intros bs Hb. apply (jlsn_decode_aloopP bs Hb). Qed.
